@@ -14,7 +14,7 @@ type rmode int
 
 const (
 	mNormal rmode = iota // the det stream (seed, label)
-	mErrAt               // the det stream, but every Read call with index >= errAt fails
+	mErrAt               // the det stream, but the Read call with index errAt fails (once; the stream then continues)
 	mZero                // all-zero bytes; after zeroBudget bytes every Read fails (rejection samplers must terminate)
 	mShort               // the SAME byte sequence as mNormal, handed out at most shortChunk bytes per Read call
 )
@@ -64,7 +64,7 @@ func (t *tap) Read(p []byte) (int, error) {
 	t.Calls++
 	switch t.spec.mode {
 	case mErrAt:
-		if idx >= t.spec.errAt {
+		if idx == t.spec.errAt {
 			t.failed++
 			return 0, errInjected
 		}
